@@ -903,7 +903,7 @@ def orderby_case(seed):
     keys, limit = [], 0      # a limit without any order: only K=0 has a defined meaning
   form = rnd.choice(['annotation', 'denotation', 'annotation_desc_item'])
   ann = []
-  if form == 'denotation' and body not in ('multi', 'distinct', 'agg', 'beam'):
+  if form == 'denotation' and body != 'beam':
     den = (' order_by(%s)' % ', '.join('"%s%s"' % (c, ' desc' if d else '') for c, d in keys)) if keys else ''
     if limit is not None:
       den += ' limit(%d)' % limit
